@@ -299,6 +299,28 @@ func c11ErrorMap(c *Ctx) {
 			handled = append(handled, s)
 		}
 	}
+	// … or of a dispatch table keyed by the operation's type (local literal or package-level map)
+	ssax.Instrs(gor, func(in ssa.Instruction) {
+		lk, ok := in.(*ssa.Lookup)
+		if !ok || !strings.Contains(ssax.Path(lk.Index), "operation.Type") {
+			return
+		}
+		if mm, ok := ssax.Resolve(lk.X).(*ssa.MakeMap); ok {
+			ssax.Instrs(gor, func(in2 ssa.Instruction) {
+				if mu, ok := in2.(*ssa.MapUpdate); ok && ssax.Resolve(mu.Map) == ssa.Value(mm) {
+					if k, ok := ssax.ConstString(mu.Key); ok {
+						handled = append(handled, k)
+					}
+				}
+			})
+		} else if tf, ok := ssax.AsTableField(lk); ok {
+			if _, vals, ok := ssax.TableEntries(tf.Global); ok {
+				for k := range vals {
+					handled = append(handled, k)
+				}
+			}
+		}
+	})
 	// the map literal
 	emap := map[string]string{}
 	collect := func(fn *ssa.Function, only ssa.Value) {
@@ -473,11 +495,18 @@ func c11ErrorMap(c *Ctx) {
 		}
 		bad := ""
 		for _, ret := range ssax.Returns(hf) {
-			if len(ret.Results) != 1 || ssax.IsNilConst(ssax.Resolve(ret.Results[0])) {
+			if len(ret.Results) != 1 {
 				continue
 			}
-			if ssax.ReachableFrom(hf, last, ret, nil, nil) {
-				bad = c.PosOf(ret)
+			// a merged result (`return helper(...)` expanded in place) is judged per alternative, at the point where
+			// that alternative is chosen
+			for _, lf := range ssax.Leaves(ret.Results[0], ret) {
+				if ssax.IsNilConst(lf.V) {
+					continue
+				}
+				if lf.At == last || ssax.ReachableFrom(hf, last, lf.At, nil, nil) {
+					bad = c.PosOf(ret)
+				}
 			}
 		}
 		r.Check(bad == "", "C11/R3", "airgapped."+h+":contribution-xor-error", "once the contribution is in the result no failure can follow (a result carries the contribution or the error, never both)", c.PosOf(last),
